@@ -185,6 +185,13 @@ def run(ctx):
         for k in t['stores']:
             if k in ((W.header_field, 'file_length'), (W.recnum_field,), (W.header_field, 'shape_type')):
                 stores_elsewhere.append(k)
+    # records are numbered 1..n: the counter moves by exactly one on every accepted write and on no other path
+    rn_path = wm.selfpath(W.recnum_field)
+    inc_ok = bool(okp) and all(t['stores'].get((W.recnum_field,)) == ('bin', 'Add', ('load', rn_path), ('int', 1), 'u32') for t in okp)
+    burnt = [t['class'] for t in tr['write_shape'] if t['class'] != 'ok' and (W.recnum_field,) in t['stores']]
+    ctx.ob("C02.reclen", "record numbering 1..n", inc_ok and not burnt,
+           "counter += 1 on each of %d accepted-write paths; paths that reject or fail and still move it: %s (a refused write would leave "
+           "a gap in the numbering)" % (len(okp), burnt), site=wsite, key="C02.reclen|numbering")
     ctx.ob("C02.reclen", "finalize leaves counters alone", not stores_elsewhere, "finalize stores %s" % stores_elsewhere,
            site=ctx.site_of(F, tr['finalize:fn']["def"]), key="C02.reclen|finalize-stores")
     fin = [t for t in tr['finalize'] if t['class'] == 'ok' and t['ops']]
